@@ -176,6 +176,8 @@ def config(tier, seed):
         "items_max": 3,
         "nest_w1": 3 if quick else 6,    # how many nested instance variants are combined pairwise
         "nest_triples": True,
+        "nest_pairs": 1 if quick else 12,
+        "sib3_all": not quick,
         "sib_r": 3 if quick else 5,
         "valm_atoms": VALM_QUICK if quick else None,  # None = the tier's full atom list
         "cross_modes": (("possdup", "split"), ("possdup", "tail"), ("raw", "split"), ("raw", "tail"))
@@ -496,7 +498,9 @@ def mode_class(spec):
 
 def coarse_class(spec):
     """Cheap grouping key of a failing input (one shrink run per key)."""
-    return (value_class(spec[2]), struct_class(spec[2]), mode_class(spec), type_class(spec))
+    d = _depth(spec[2])
+    return (value_class(spec[2]), "depth0" if d == 0 else "depth1" if d == 1 else "nested", mode_class(spec),
+            type_class(spec))
 
 
 def cause_label(spec):
@@ -804,6 +808,9 @@ def units(include_non_ascii=False):
     for g in gs:
         us.append(("cross", g))
     for g in gs:
+        if CFG["sib3_all"] or g not in tb.all_members:
+            us.append(("sib3", g))
+    for g in gs:
         n = max(1, (len(tb.rg[g]) * len(valm_atoms()) * 3) // 6000)
         for p in range(n):
             us.append(("valm", g, p, n))
@@ -878,6 +885,9 @@ def _nested_bodies(g):
     for i in range(n):
         yield ((g, (items[i], items[(i + 1) % n])),)
         yield ((g, (items[i], items[(i * 7 + 3) % n])),)
+    for d in range(2, CFG["nest_pairs"] + 1):
+        for i in range(n):
+            yield ((g, (items[i], items[(i + d) % n])),)
     if CFG["nest_triples"]:
         for i in range(n):
             yield ((g, (items[i], items[(i + 1) % n], items[i])),)
@@ -913,6 +923,26 @@ def _sib_bodies(g):
                 yield ((nm[0], None), (g, i1), (h, i2), (nm[1], None))
                 if r > 2:
                     yield ((g, i1), (nm[0], None), (h, i2))
+
+
+def _sib3_bodies(g):
+    """Three sibling groups at top level (quick: definitions that are never nested; minimal instances)."""
+    tb = TABLE
+    pool = [h for h in tb.order if tb.usable(h) and (CFG["sib3_all"] or h not in tb.all_members)]
+    nm = nonmember_tags()
+    r = 2 if CFG["sib3_all"] else 1
+    for h in pool:
+        if h == g or h in tb.closure(g):
+            continue
+        for k in pool:
+            if k in (g, h) or k in tb.closure(h):
+                continue
+            for v in range(r):
+                ig, ih, ik = (rep_instances(x, 2)[v if len(rep_instances(x, 2)) > v else 0] for x in (g, h, k))
+                if v == 0:
+                    yield ((g, ig), (h, ih), (k, ik))
+                else:
+                    yield ((nm[0], None), (g, ig), (h, ih), (k, ik), (nm[1], None))
 
 
 VAL_TEMPLATES = {
@@ -1111,6 +1141,9 @@ def expand(unit):
             yield spec_of(b)
     elif fam == "sib":
         for b in _sib_bodies(unit[1]):
+            yield spec_of(b)
+    elif fam == "sib3":
+        for b in _sib3_bodies(unit[1]):
             yield spec_of(b)
     elif fam == "val":
         for b in _val_bodies(unit[1], atoms(CFG)):
